@@ -249,6 +249,14 @@ def entries_route_through_funnel(ctx):
               f'the funnel call is reachable after an exception at {[repr(cfgw.nodes[b]) for b in sorted(bad_nodes)][:3]}', ww)
 
 
+@rule('C05.R9', min_instances=1)
+def a_cached_value_can_always_be_sent(ctx):
+    """shared with C07.R6c: whatever the funnel caches has to go out to every listener - the frame encoder must not raise
+    for a float the cache can hold (NaN passes FloatRange today), because it runs outside every handler of the send path"""
+    from sa.rules import c07
+    c07.encoder_does_not_fail_for_a_float_the_cache_can_hold(ctx)
+
+
 def _done_returns(funcnode, cfg):
     """`if value is Done: return getattr(self, pname)` idiom (legacy, documented TODO) -> cfg node ids"""
     def is_done(a, tv):
